@@ -17,6 +17,8 @@ func init() {
 		Quick:      all("./internal/encoding/text", "./encoding/prototext"),
 		Thorough:   all("./..."),
 		Run: func(c *Ctx) {
+			c.ruleUTF8StringOnly("R-UTF8-STRING-ONLY", []string{"encoding/prototext"}, 1)
+			c.ruleAppendCapped("R-APPEND-CAPPED", []string{"internal/encoding/text.(*Decoder).parseString"})
 			c.ruleTextEscapes("R-TEXT-ESCAPES")
 			c.ruleRecursionGuard(recScope{Rule: "R-RECURSION-GUARD", Pkgs: []string{"encoding/prototext"}, Extra: recursionExtrasJSONText(), Floor: 3})
 		},
